@@ -222,7 +222,15 @@ func genEpisode(r *hx.Rng, ip *interp, run func(string) string, n int, st *genSt
 			if r.Chance(1, 20) {
 				vrf = []string{"-", "0000"}[r.Intn(2)]
 			}
-			run(fmt.Sprintf("apply %s %s %d %d %s %s %s", h(e.src()), h(e.id()), typ, pickStake(r, t), h(ac), pk, vrf))
+			id := e.id()
+			if kid, _, _, ktyp, ok := e.knownMiner(); ok && r.Chance(1, 5) {
+				// re-apply a registered id in the OTHER registry (the duplicate-id check must look at both)
+				id = kid
+				typ = 1 - int(ktyp)
+				t = typ
+				st.inc("apply-existing-id-other-type")
+			}
+			run(fmt.Sprintf("apply %s %s %d %d %s %s %s", h(e.src()), h(id), typ, pickStake(r, t), h(ac), pk, vrf))
 		case k < 45:
 			id, _, _, _, ok := e.knownMiner()
 			if !ok || r.Chance(1, 5) {
